@@ -638,8 +638,10 @@ func (v *Visitor) visit(s *df.AnalyzerState, entrypoint *df.CallNodeArg) error {
 					}
 					stack, _ = v.addNext(s, stack, cur, nextNodeWithTrace, cur.Status, df.EdgeInfo{}, seen)
 				}
-			} else if cur.ClosureTrace != nil {
-				// Flow to the matching bound variables at the make closure site from the closure trace
+			} else if cur.ClosureTrace != nil && cur.ClosureTrace.Label.ClosureSummary == graphNode.Graph() {
+				// Flow to the matching bound variables at the make closure site from the closure trace.
+				// The closure trace can only be used when its top creates the closure being left: a closure called
+				// (transitively) from another closure's body still carries the outer closure's trace.
 				bvs := cur.ClosureTrace.Label.BoundVars()
 				if len(bvs) == 0 {
 					panic("no bound vars")
